@@ -292,7 +292,13 @@ func (c *Ctx) Finish() int {
 			exit = 2
 		}
 	} else {
-		_ = os.WriteFile(filepath.Join(dir, "evidence", c.ID+".json"), b, 0o644)
+		evdir := filepath.Join(dir, "evidence")
+		if d := os.Getenv("VERIF_EVIDENCE_DIR"); d != "" {
+			// runs against a scratch copy of the repository (seeded changes) must not overwrite the real evidence
+			evdir = d
+			_ = os.MkdirAll(evdir, 0o755)
+		}
+		_ = os.WriteFile(filepath.Join(evdir, c.ID+".json"), b, 0o644)
 	}
 	fmt.Printf("RESULT property=%s tier=%s seed=%d evaluations=%d distinct=%d violations=%d known=%d inconclusive=%d wall=%.1fs exit=%d\n",
 		c.ID, c.Tier, c.Seed, c.evaluations, len(c.distinct), unknown, len(knownHits), len(c.inconclusive), time.Since(c.start).Seconds(), exit)
